@@ -250,6 +250,24 @@ def run_unit(unit, tier="quick", seeds=None):
         res.update(status="undecided", reason=f"extraction: {e}")
         return res
     res["sources"] = meta["sources"]
+    # `stub=UNIT` blocks: the statement range must be exactly the range that unit UNIT verifies under the same name
+    # (same source text, by hash); otherwise the assumed contract is not about verified code: undecided
+    for it in meta.get("items", []):
+        if not it.get("stub"):
+            continue
+        origin = re.search(r"verified in unit (\w+)", " ".join(it.get("rules", [])))
+        origin = origin.group(1) if origin else None
+        try:
+            extract.Source._cache.clear()
+            ometa = extract.write_unit(os.path.join(ROOT, "units", origin, "unit.rs.in"), os.path.join(BUILD, f"{origin}__stubref.rs"))
+        except Exception as e:
+            res.update(status="undecided", reason=f"stub block {it['name']}: unit {origin} cannot be extracted: {e}")
+            return res
+        same = [o for o in ometa.get("items", []) if o.get("block") and not o.get("stub") and o["name"] == it["name"] and o["file"] == it["file"]]
+        if not same or same[0]["sha256"] != it["sha256"]:
+            res.update(status="undecided", reason=f"stub block {it['name']}: unit {origin} does not verify a block of that name over the same statement range")
+            return res
+    extract.Source._cache.clear()
     ok, found, problems = trusted_scan(gen, meta)
     res["trusted"] = found
     if not ok:
